@@ -95,6 +95,10 @@ func verifC06Case(vc *verifCtx, i int) {
 	lastRel := [2]int64{-1, -1}
 	e.hooks.onRelease = verifC06ReleaseHook(&lastRel)
 	e.probeLiveSync = true
+	if fr.Chance(1, 2) {
+		e.enableForeign()
+		vc.Count("foreign_writer_cases", 1)
+	}
 	hostile := 0
 	for a := 0; a < nActions && !e.ended; a++ {
 		// hostile revocation: when a revoke_and_ack is at the head of a
